@@ -69,6 +69,11 @@ def prepare(tier):
     family(tier)
 
 
+# a map part whose lone key-kind condition is NOT a plain key equality (length / type of the key), with an argument of the
+# types a primitive part can have: serialised next to another explicit part
+KEYPREP_PARTS = [("map", T.leaf("KeyLength", "equal_to", 2.0), None, None), ("map", T.leaf("KeyLength", "equal_to", "ab"), None, None),
+                 ("map", T.leaf("KeyLength", "equal_to", 1), None, None), ("mol", T.leaf("KeyLength", "equal_to", 1), None, None, None),
+                 ("map", T.leaf("Key", "not_equal_to", "a"), None, None), ("map", T.leaf("Key", "equal_to", 1.5), None, "L")]
 APPROX_PARTS = [("list", None, T.leaf("Value", "equal_to_approx", 1.0, 0.5), None),
                 ("map", None, T.leaf("Value", "equal_to_approx", value=2, tolerance=0.25), None),
                 ("mol", None, None, T.leaf("Value", "in_range", 0, 3), None)]
@@ -97,6 +102,13 @@ def run_unit(unit, tier):
         res.count("transitions", make_noise())
         ps = [T.path((p,)) for p in APPROX_PARTS + PARTS[::3]] + [T.path((("prim", "a"), p)) for p in APPROX_PARTS]
         docs = family("quick")
+        kdocs = docs + [{"ab": 1, "a": 2, 2.0: 3, "xy": [1]}, [{"ab": 1, 1.5: 2}, {"a": {"cd": 1}}]]
+        for pi, p in enumerate(KEYPREP_PARTS):
+            for how in ("api", "spec"):
+                check_case(res, T.path((p,)), how, kdocs, key=("KEYPREP", pi, how))
+                check_case(res, T.path((p, gen.BARE[1])), how, kdocs, key=("KEYPREP", pi, how, "then-list"))
+                check_case(res, T.path((gen.BARE[1], p)), how, kdocs, key=("KEYPREP", pi, how, "after-list"))
+                check_case(res, T.path((("prim", "a"), p, gen.MAPS[3])), how, kdocs, key=("KEYPREP", pi, how, "3"))
         for pi, p in enumerate(UNNAMED_TYPE_PARTS):
             check_case(res, T.path((p,)), "api", docs, key=("UNNAMED", pi))
             check_case(res, T.path((("prim", "a"), p)), "api", docs, key=("UNNAMED", pi, "a"))
